@@ -46,19 +46,24 @@ Section Calls.
               N.succ n,
               match oh_result oh (hs_res b) with HROk => true | _ => false end)
          end.
-  Fixpoint loop_mcalls (oh : onhandle) (msg : wmsg P) (hs : list (handler T * hscript)) (n : N) : list mevent :=
+  (** the loop; [trail] = group closure without AckOnUnknownEvent: when the loop ends with
+      handledAnyEvent = false the error text is built with a SECOND NameFromMessage(msg) call
+      (event_processor_group.go l.263) *)
+  Fixpoint loop_mcalls (oh : onhandle) (trail : bool) (msg : wmsg P) (hs : list (handler T * hscript)) (n : N)
+           (handled : bool) : list mevent :=
     match hs with
-    | [] => []
+    | [] => if trail && negb handled then [MNameFrom] else []
     | hb :: hs' =>
         let '(e, n', go) := one_mcalls oh msg hb n in
-        e ++ (if go then loop_mcalls oh msg hs' n' else [])
+        e ++ (if go then loop_mcalls oh trail msg hs' n'
+                           (handled || matches gen_name zero msg (fst hb)) else [])
     end.
   (** one delivery: NameFromMessage first; a command / event closure looks at its one handler *)
   Definition proc_mcalls (cfg : pcfg) (msg : wmsg P) (d : @delivery T) : list mevent :=
     MNameFrom ::
     match d with
     | DCommand h b | DEvent h b => fst (fst (one_mcalls (pc_onhandle cfg) msg (h, b) 0))
-    | DGroup hs => loop_mcalls (pc_onhandle cfg) msg hs 0
+    | DGroup hs => loop_mcalls (pc_onhandle cfg) (negb (pc_ack_unknown cfg)) msg hs 0 false
     end.
 
   (** *** the discipline as an acceptor over an observed call sequence of one delivery *)
@@ -66,8 +71,8 @@ Section Calls.
     match l with [] => [] | x :: l' => if N.eqb o x then l' else x :: remove_first o l' end.
   Fixpoint mcalls_run (name : N) (tr : list mevent) (seen : bool) (hi : N) (ready : list N) : bool :=
     match tr with
-    | [] => seen                                             (* NameFromMessage was called *)
-    | MNameFrom :: tr' => negb seen && mcalls_run name tr' true hi ready      (* ... exactly once *)
+    | [] => seen                                             (* NameFromMessage was called (at least once) *)
+    | MNameFrom :: tr' => mcalls_run name tr' true hi ready
     | MUnmarshal tn o fresh ok :: tr' =>
         seen                                                 (* only after NameFromMessage *)
         && N.eqb tn name                                     (* only into a type whose name is the message's *)
